@@ -560,6 +560,8 @@ def install(mon, reach):
     from orquestra.quantum.measurements import parities as MP
     from orquestra.quantum.operators._openfermion_utils import sparse_tools as ST
 
+    import orquestra.quantum.runners.symbolic_simulator  # noqa: F401  (so that its overrides of the base class are hooked too)
+
     Sim = WS.BaseWavefunctionSimulator
     reach.watch(W.Wavefunction.get_outcome_probs, "Wavefunction.get_outcome_probs")
     reach.watch(W.sample_from_wavefunction, "sample_from_wavefunction", markers={
@@ -580,11 +582,11 @@ def install(mon, reach):
     reach.watch(MM.Measurements.get_counts, "Measurements.get_counts")
     reach.watch(MM.Measurements.get_expectation_values, "Measurements.get_expectation_values")
 
-    mon.hook_method(Sim, "get_wavefunction", post=_post_get_wavefunction, name="get_wavefunction")
+    mon.hook_method(Sim, "get_wavefunction", post=_post_get_wavefunction, name="get_wavefunction", overrides=True)
     mon.hook_method(Sim, "get_measurement_outcome_distribution", post=_post_get_dist,
-                    name="get_measurement_outcome_distribution")
-    mon.hook_method(Sim, "run_and_measure", post=_post_run_and_measure, name="run_and_measure")
-    mon.hook_method(Sim, "get_exact_expectation_values", post=_post_exact_expect, name="get_exact_expectation_values")
+                    name="get_measurement_outcome_distribution", overrides=True)
+    mon.hook_method(Sim, "run_and_measure", post=_post_run_and_measure, name="run_and_measure", overrides=True)
+    mon.hook_method(Sim, "get_exact_expectation_values", post=_post_exact_expect, name="get_exact_expectation_values", overrides=True)
     mon.hook_func(W, "sample_from_wavefunction", post=_post_sample, name="sample_from_wavefunction")
     mon.hook_method(W.Wavefunction, "get_outcome_probs", post=_post_outcome_probs, pre=_pre_amps,
                     name="Wavefunction.get_outcome_probs")
@@ -857,6 +859,15 @@ def _views(ctx, spec, n, stats=False, classical=None, operators_general=False, *
     terms = [(tuple(q for q, _o in ops), c.real) for ops, c in P.terms_of(op)]
     e_ref = G.z_expectation(p, terms, n)
     e_lib = sim.get_exact_expectation_values(circuit, op)
+    if n <= 6:
+        # the operator's matrix on this register, asked for directly (the hook judges its qubit order): whether the
+        # expectation value above is computed from it or without it is the library's business
+        from orquestra.quantum.operators import get_sparse_operator
+
+        try:
+            get_sparse_operator(op, n)
+        except Exception:
+            pass  # recorded by the hook
     scale = max(1.0, sum(abs(c) for _, c in terms))
     ctx.check("exact-expectation", abs(e_lib - e_ref) <= 1e-9 * scale,
               lambda: f"exact <{op}> = {e_lib!r}, reference sum_b p(b) eig(b) = {e_ref!r}")
